@@ -779,6 +779,21 @@ def _parse_vcs_options(
     return cfg
 
 
+def _normalize_set_version(cfg: config.Config, set_version: str) -> str:
+    # Files are rewritten with the version as it is rendered by the pattern.
+    # Use that spelling everywhere (announcement, commit, tag), e.g. 1.2.012 -> 1.2.12
+    try:
+        if cfg.is_new_pattern:
+            v2_vinfo = v2version.parse_version_info(set_version, cfg.version_pattern)
+            return v2version.format_version(v2_vinfo, cfg.version_pattern)
+        else:
+            v1_vinfo = v1version.parse_version_info(set_version, cfg.version_pattern)
+            return v1version.format_version(v1_vinfo, cfg.version_pattern)
+    except version.PatternError:
+        # reported by _is_valid_version
+        return set_version
+
+
 def _sub_msg_template(message: str) -> str:
     return re.sub(r"\b(OLD|NEW)\b", r"{\1_VERSION}", message)
 
@@ -897,7 +912,7 @@ def update(
             maybe_date=maybe_date,
         )
     else:
-        new_version = set_version
+        new_version = _normalize_set_version(cfg, set_version)
 
     if new_version is None:
         _log_no_change('update', cfg.version_pattern)
